@@ -350,3 +350,68 @@ Proof.
   refine (received_shares_verified r self share pks t msgs [(self, share)] _ kv H).
   intros kv' [<-|[]]. left. split; reflexivity.
 Qed.
+
+(* ---------------- call histories in one process ---------------- *)
+
+(* history independence: the process state after any history is the one before it, and the
+   answers are the pure function [run_rec] mapped over the calls *)
+Theorem run_history_is_map r st h : run_history r st h = (st, map (run_rec r) h).
+Proof.
+  induction h as [|c t IH]; cbn [run_history call map]; [reflexivity|].
+  rewrite IH. reflexivity.
+Qed.
+
+(* whatever was recovered before and whatever is recovered afterwards, an admissible call
+   (correct shares, distinct indices, at least threshold of them) returns the group signature /
+   the group public key *)
+Theorem history_recovers_unique r : prime r ->
+  forall st (pre post : list rec_case) (c : rec_case),
+  (forall s, In s (valid_shares (c_entries c)) ->
+     fst s < r /\ snd s mod r = eval (c_coeffs c) (fst s) mod r) ->
+  NoDup (map fst (valid_shares (c_entries c))) ->
+  Z.of_nat (length (c_coeffs c)) <= c_threshold c <= Z.of_nat (length (valid_shares (c_entries c))) ->
+  nth_error (snd (run_history r st (pre ++ c :: post))) (length pre)
+  = Some (Ok (nth 0 (c_coeffs c) 0 mod r)).
+Proof.
+  intros Hp st pre post c H1 H2 H3.
+  rewrite run_history_is_map. cbn [snd]. rewrite map_app. cbn [map].
+  rewrite nth_error_app2; rewrite map_length; [|lia].
+  rewrite Nat.sub_diag. cbn [nth_error]. f_equal.
+  destruct (recover_unique r Hp (c_coeffs c) (c_entries c) (c_threshold c) H1 H2 H3) as [Hs Hk].
+  unfold run_rec. destruct (c_fn c); assumption.
+Qed.
+
+(* the answers to a history do not depend on the calls made before it *)
+Theorem history_suffix_independent r st pre h :
+  snd (run_history r st (pre ++ h))
+  = snd (run_history r st pre) ++ snd (run_history r st h).
+Proof. rewrite !run_history_is_map. cbn [snd]. apply map_app. Qed.
+
+Theorem spec_hist_sound r h : spec_hist r h = true ->
+  forall c, In c h ->
+  (forall s, In s (valid_shares (c_entries c)) ->
+     fst s < r /\ snd s mod r = eval (c_coeffs c) (fst s) mod r) ->
+  NoDup (map fst (valid_shares (c_entries c))) ->
+  Z.of_nat (length (c_coeffs c)) <= c_threshold c <= Z.of_nat (length (valid_shares (c_entries c))) ->
+  exists z, c_obs c = OPoint (Some z) true /\ z mod r = nth 0 (c_coeffs c) 0 mod r.
+Proof.
+  unfold spec_hist. rewrite forallb_forall. intros H c Hin. apply spec_sound. apply H. exact Hin.
+Qed.
+
+Theorem model_histories_pass_spec r : prime r ->
+  forall h, spec_hist r (map (with_model_obs r) h) = true.
+Proof.
+  intros Hp h. unfold spec_hist. rewrite forallb_forall. intros c Hin.
+  apply in_map_iff in Hin. destruct Hin as [[f es t cs o] [<- _]].
+  unfold with_model_obs. cbn [c_fn c_entries c_threshold c_coeffs].
+  apply model_passes_spec. exact Hp.
+Qed.
+
+(* the pair of the seeded regression: members [1;12;3] then [11;2;3] of one polynomial *)
+Example history_example :
+  let cs := [5; 3; 2] in
+  let sh i := EShare i (Some (eval cs i)) in
+  let mk es := {| c_fn := FSig; c_entries := es; c_threshold := 3; c_coeffs := cs; c_obs := OErr |} in
+  snd (run_history Concrete.order tt [mk [sh 1; sh 12; sh 3]; mk [ENil; sh 11; sh 2; sh 3]])
+  = [Ok 5; Ok 5].
+Proof. vm_compute. reflexivity. Qed.
